@@ -34,6 +34,10 @@ WHAT IS OFFERED (case kinds; x = exhaustive plan, r = random)
                string) for every positional field, line.name = new / existing / empty / placeholder / invalid name,
                disconnect(), gfa.rm(line)), then rm(line), disconnect(), connect(gfa), rm(old name), validate(),
                rename, delete(tag), set(tag, value); then str(gfa), gfa.validate().
+               `segs=between` / `segs=never`: the same sequences on the dependant when it is the FIRST line of a graph
+               built line by line (Gfa(); add_line): the segments it mentions are placeholders and the Gfa holds no S
+               line at all (no line of any other kind when the dependant is a group) while the first call is made;
+               the two S lines are added between the first and the second call / never (levels 1 and 3).
   graph (r)    a random small graph (rnd_graph: several links per segment end, hairpin / self links, containments,
                paths over links, fragments, gaps, groups of groups sharing members, mutually nested groups, forward
                references, undefined references, placeholders identifiers) built by Gfa(list) or add_line; the line
@@ -41,10 +45,26 @@ WHAT IS OFFERED (case kinds; x = exhaustive plan, r = random)
                connect, set, set(tag, None), delete, rename, get, field_to_s, validate, str, add_line, line /
                try_get_line, str(gfa), gfa.validate() -- also on line objects which an earlier call removed,
                disconnected or renamed; at the end str(gfa), gfa.validate(), str() of every line object taken and
-               validate() of every line of the graph.  `shrink` removes steps and lines.
+               validate() of every line of the graph; then the graph is taken apart: rm(line object) for every
+               object taken (also those no longer in the graph), try_get_line(name) and rm(name) for every line
+               still left, str(gfa), gfa.validate() -- a line which an earlier call left registered under another
+               identifier than its own, or half connected, must still be refused or removed with a gfapy.Error.
+               About a third of the scripts start on an INCOMPLETE graph (split_graph): lines are held back
+               (`late`) and added before step `late_at` or never -- either the lines arrive from the most to the
+               least dependent record type (groups, paths, gaps, fragments, edges, segments, i.e. every line before
+               the lines it mentions) and the script starts after the first few, or whole record types are held
+               back; so calls are made while segments / edges / members are placeholders and while whole
+               collections of the Gfa (e.g. its segments) are empty.  `shrink` removes steps and lines.
 
 `line.set(tag, None)` is made although None is not a string: it is the documented way to remove a tag
 (doc/tutorial/tags.rst); it is only made for tags the line has.
+
+FINDING ON THE UNCHANGED TREE (genuine, not hidden; signature foreign:AttributeError@gfa.py:__validate_group_items)
+  mutually nested groups (`U u0 o1` + `O o1 u0+`, or `O o1 o3+` + `O o3 o1+`) at vlevel 3: rm() of one of them stops
+  half-way with gfapy.TypeError (a member reference is already None when the items field is validated during the
+  disconnection), both lines stay in the graph and the following Gfa.validate() raises the builtin AttributeError
+  "'str' object has no attribute 'virtual'".  Reached by random `graph` cases (mutually nested groups), about one
+  case in 3000.
 
 NOT CHECKED
   * unreadable / missing files (OSError comes from the operating system, not from the text offered);
@@ -70,9 +90,12 @@ RULE = ("exhaustive: the short-string enumerations of C04 (every tag datatype, e
         "non-ASCII digits in every identifier position; GFA1 paths with every number of overlaps; files whose bytes are "
         "not UTF-8 (damaged at 8 kinds of places, other encodings); removal (by name, by object, disconnect) of each line "
         "of every graph made of a segment and two lines depending on it or on each other; every two-call sequence "
-        "(change a line, then use it) on the lines of 10 three-line graphs; random: random byte-ish strings, random "
+        "(change a line, then use it) on the lines of 10 three-line graphs, also with the dependant added first and its "
+        "segments added between the two calls or never; random: random byte-ish strings, random "
         "multi-point mutations, random byte damage of files, random API scripts on a fixed document and on the line "
-        "objects of random small graphs with a rich dependency structure.  Non-trivial: every case (each makes at least "
+        "objects of random small graphs with a rich dependency structure (a third of them still incomplete when the "
+        "script starts: lines arrive during the script, dependants before the lines they mention), every graph taken "
+        "apart line by line at the end.  Non-trivial: every case (each makes at least "
         "one call).")
 CASE_TIMEOUT = 120
 
@@ -234,6 +257,9 @@ def _plan(tier):
     for ver, dep in APISEQ_DOCS:
         for v in (0, 1, 2, 3):
             plan.append({"kind": "apiseq", "version": ver, "dep": dep, "vlevel": v})
+            # the dependant arrives before its segments: they are added between the two calls / never
+            for segs in (("between", "never") if v in (1, 3) else ("between",)):
+                plan.append({"kind": "apiseq", "version": ver, "dep": dep, "vlevel": v, "segs": segs})
     for d in range(len(G.BASE_DOCS)):
         for where in RAW_WHERE + RAW_ENCODINGS:
             for v in (0, 1, 2, 3):
@@ -440,6 +466,32 @@ def rnd_graph_steps(rng, lines, names, ver):
     return steps
 
 
+# the record types from the most dependent to the least dependent one: a line may mention lines of the later types
+DEP_ORDER = "UOPGFECLSH#"
+
+
+def split_graph(rng, case):
+    """some lines of the graph arrive late: the script starts on a graph which is still incomplete (lines mention
+    lines which are not there yet; whole collections - e.g. the segments - are still empty) and the lines held back
+    (`late`) are added before step `late_at` (None: never).  Either every line arrives before the lines it may
+    mention (groups, then paths, gaps, fragments, edges, then segments) and the script starts after the first few of
+    them, or whole record types are held back"""
+    L = case["lines"]
+    if rng.chance(0.5):
+        byorder = sorted(L, key=lambda x: DEP_ORDER.index(x[0]) if x[:1] in DEP_ORDER else 0)   # stable
+        m = rng.randrange(1, len(byorder)) if len(byorder) > 1 else 1
+        first, late = byorder[:m], byorder[m:]
+    else:
+        held = [t for t in "SELCFGPOU" if rng.chance(0.5)]
+        first = [x for x in L if x[:1] not in held]
+        late = [x for x in L if x[:1] in held]
+    if not late:
+        return
+    case["lines"] = first
+    case["late"] = late
+    case["late_at"] = None if rng.chance(0.15) else rng.randrange(len(case["steps"]) + 1)
+
+
 def rnd_raw(rng):
     """bytes of a small document, damaged so that they are (most of the time) not UTF-8"""
     ver0 = rng.pick(["gfa1", "gfa2"])
@@ -503,8 +555,11 @@ def gen_case(rng, tier, i):
         # API script on the lines of a small graph
         ver0 = rng.pick(["gfa1", "gfa2"])
         L, names = rnd_graph(rng, ver0)
-        return {"kind": "graph", "lines": L, "vlevel": v, "version": rng.pick([None, ver0, ver0]), "how": rng.pick(["list", "add", "add"]),
+        case = {"kind": "graph", "lines": L, "vlevel": v, "version": rng.pick([None, ver0, ver0]), "how": rng.pick(["list", "add", "add"]),
                 "steps": rnd_graph_steps(rng, L, names, ver0)}
+        if rng.chance(0.35):
+            split_graph(rng, case)
+        return case
     # API script on a fixed document
     d = rng.randrange(len(API_DOCS))
     steps = []
@@ -909,22 +964,32 @@ def apiseq_call(P, g, l, op, oldname, ctx, shown):
     P.call("str(%s) after %s (%s)" % (who, k, ctx), shown, str, l)
 
 
-def probe_apiseq(P, ver, dep, vlevel):
+def probe_apiseq(P, ver, dep, vlevel, segs="first"):
     """every two-call sequence (a call which changes a line; a second call on the same line object or on the graph)
-    on the segment s1 and on its dependant, each on a freshly built graph"""
+    on the segment s1 and on its dependant, each on a freshly built graph.
+    segs = between / never: the graph is built line by line and the dependant is its first line (the segments it
+    mentions are placeholders, the Gfa has no S line); the calls are made on the dependant, the two S lines are
+    added between the first and the second call / are not added at all"""
     gfapy = lib.import_gfapy()
     lines = apiseq_doc(ver, dep)
-    ctx = "vlevel=%d %s" % (vlevel, ver)
+    ctx = "vlevel=%d %s" % (vlevel, ver) + ("" if segs == "first" else " segments: %s" % segs)
 
     def fresh(which):
-        st, g = P.call("Gfa(list, %s)" % ctx, lines, gfapy.Gfa, list(lines), vlevel=vlevel, version=ver)
-        if st != "ok":
-            return None, None
+        if segs == "first":
+            st, g = P.call("Gfa(list, %s)" % ctx, lines, gfapy.Gfa, list(lines), vlevel=vlevel, version=ver)
+            if st != "ok":
+                return None, None
+        else:
+            st, g = P.call("Gfa(%s)" % ctx, lines, gfapy.Gfa, vlevel=vlevel, version=ver)
+            if st != "ok":
+                return None, None
+            if P.call("add_line (%s)" % ctx, lines[which], g.add_line, lines[which])[0] != "ok":
+                return None, None
         st, ls = P.call("Gfa.lines", lines, lambda: [l for l in g.lines if str(l) == lines[which]])
         if st != "ok" or not ls:
             return None, None
         return g, ls[0]
-    for which, oldname in ((0, "s1"), (2, "d1")):
+    for which, oldname in (((0, "s1"), (2, "d1")) if segs == "first" else ((2, "d1"),)):
         g, l = fresh(which)
         if g is None:
             return
@@ -936,6 +1001,9 @@ def probe_apiseq(P, ver, dep, vlevel):
                     return
                 shown = {"lines": lines, "line": lines[which], "calls": [op1, op2]}
                 apiseq_call(P, g, l, op1, oldname, ctx, shown)
+                if segs == "between":
+                    for x in lines[:2]:
+                        P.call("add_line (%s)" % ctx, shown, g.add_line, x)
                 apiseq_call(P, g, l, op2, oldname, ctx, shown)
                 P.call("str(Gfa) after the two calls (%s)" % ctx, shown, str, g)
                 P.call("Gfa.validate() after the two calls (%s)" % ctx, shown, g.validate)
@@ -1018,8 +1086,24 @@ def probe_graph(P, case):
     if st != "ok":
         return
     shown = {"lines": case["lines"], "steps": case["steps"]}
+    late, late_at = case.get("late") or [], case.get("late_at")
+    if late:
+        shown["late"] = late; shown["late_at"] = late_at
+
+    def add_late():
+        for ln in late:
+            P.call("add_line of a line held back (%s)" % ctx, ln, g.add_line, ln)
+        P.call("process_line_queue (%s)" % ctx, shown, g.process_line_queue)
+        st, now = P.call("Gfa.lines (%s)" % ctx, shown, lambda: list(g.lines))
+        if st == "ok":
+            have = set(id(x) for x in lines)
+            lines.extend(x for x in now if id(x) not in have)
     for k, step in enumerate(case["steps"]):
+        if late and late_at == k:
+            add_late()
         graph_step(P, g, lines, step, ctx + " step %d" % k)
+    if late and late_at is not None and late_at >= len(case["steps"]):
+        add_late()
     P.call("str(Gfa) at the end of the script (%s)" % ctx, shown, str, g)
     P.call("Gfa.validate() at the end of the script (%s)" % ctx, shown, g.validate)
     for l in lines:
@@ -1028,6 +1112,19 @@ def probe_graph(P, case):
     if st == "ok":
         for l in now[:40]:
             P.call("line.validate() at the end of the script (%s)" % ctx, shown, l.validate)
+    # the graph is taken apart: every line object taken during the script is removed (whether it is still in the
+    # graph or not), the lines still left are looked up and removed by the name they have now
+    for l in lines:
+        P.call("Gfa.rm(line object) when the graph is taken apart (%s)" % ctx, shown, g.rm, l)
+    st, now = P.call("Gfa.lines after the removals (%s)" % ctx, shown, lambda: list(g.lines))
+    if st == "ok":
+        for l in now[:40]:
+            st, n = P.call("line.name", shown, getattr, l, "name", None)       # headers, comments: no name
+            if st == "ok" and isinstance(n, str):
+                P.call("Gfa.try_get_line(name of a line left) (%s)" % ctx, shown, g.try_get_line, n)
+                P.call("Gfa.rm(name of a line left) (%s)" % ctx, shown, g.rm, n)
+    P.call("str(Gfa) after the graph was taken apart (%s)" % ctx, shown, str, g)
+    P.call("Gfa.validate() after the graph was taken apart (%s)" % ctx, shown, g.validate)
 
 
 def build_api_doc(P, d, vlevel):
@@ -1158,7 +1255,7 @@ def oracle(case):
     elif k == "plist":
         probe_plist(P, case["nseg"], v)
     elif k == "apiseq":
-        probe_apiseq(P, case["version"], case["dep"], v)
+        probe_apiseq(P, case["version"], case["dep"], v, case.get("segs", "first"))
     elif k == "graph":
         probe_graph(P, case)
     elif k == "line":
@@ -1199,7 +1296,9 @@ def shrink(case, failure, max_runs=200):
         except Exception:
             return False
     cur = dict(case)
-    for key in ("steps", "lines", "steps"):
+    for key in ("steps", "lines", "late", "steps"):
+        if key not in cur:
+            continue
         progress = True
         while progress and runs[0] < max_runs:
             progress = False
@@ -1216,9 +1315,11 @@ def shrink(case, failure, max_runs=200):
 
 def tags(case):
     t = [case["kind"], "v%d" % case["vlevel"]]
-    for k in ("version", "dialect", "how", "op", "shape", "call", "where", "first", "dep"):
+    for k in ("version", "dialect", "how", "op", "shape", "call", "where", "first", "dep", "segs"):
         if k in case:
             t.append("%s=%s" % (k, case[k]))
+    if case.get("late"):
+        t.append("late" if case.get("late_at") is not None else "late-never")
     return t
 
 
